@@ -16,7 +16,7 @@ def main(argv=None):
     res2 = chanworld.run(ck, [("channel.HTTPChannel.service", "W"), ("channel.HTTPChannel.handle_close", "IO"),
                               ("channel.HTTPChannel._flush_some", "IOL"), ("channel.HTTPChannel._flush_some", "W"),
                               ("channel.HTTPChannel.write_soon", "W")])
-    world.report(ck, res2, select=lambda n: any(p in n for p in ("C09", "raises:BaseException", "raises:Exception", "raises:ClientDisconnected", "coverage",
+    world.report(ck, res2, select=lambda n: any(p in n for p in ("C09", "W5-", "raises:BaseException", "raises:Exception", "raises:ClientDisconnected", "coverage",
                                                                  "R6:no-dispatch-when-disconnected")))
     res3 = world.run_functions(ck, ["dispatcher"], ["task.ThreadedTaskDispatcher.handler_thread"], timeout=20, hooks_mod="contracts.dispatcher")
     world.report(ck, res3, select=lambda n: "raises" in n or "coverage" in n)
